@@ -150,6 +150,10 @@ func generate(prog *ssa.Program, db *ContractDB, fn *ssa.Function, fc *FuncContr
 		}
 		bindResultNames(post, fc, fn.Signature.Results(), ex.results)
 		for _, en := range fc.Ensures {
+			if en.Trusted {
+				c.assumed[fmt.Sprintf("trusted postcondition %s#%s (used at call sites, not proved from the body)", shortFn(fn), en.Name)] = true
+				continue
+			}
 			t, err := post.evalBool(en.E)
 			name := fmt.Sprintf("%s#ensures:%s", shortFn(fn), en.Name)
 			if err != nil {
